@@ -824,20 +824,21 @@ func undeprecateSlice(ids []string, deprecations map[string][]string) []string {
 	return newIDs
 }
 
-// undeprecateMap transforms the given map of IDs to values so that any
+// undeprecateMap transforms the given map of IDs to paths so that any
 // deprecated IDs are replaced with their replacements per the given
 // deprecations. When there is more than one replacement, all entries
-// for the replacements will have the same value.
-func undeprecateMap[T any](idMap map[string]T, deprecations map[string][]string) map[string]T {
-	newIDs := make(map[string]T, len(idMap))
-	for id, val := range idMap {
-		replacements, ok := deprecations[id]
-		if ok {
-			for _, replacement := range replacements {
-				newIDs[replacement] = val
-			}
-		} else {
-			newIDs[id] = val
+// for the replacements will have the same paths. When several IDs end up
+// as the same ID (a deprecated ID and its replacement are both keys), the
+// paths are merged, so that the result does not depend on map iteration order.
+func undeprecateMap(idMap map[string][]string, deprecations map[string][]string) map[string][]string {
+	newIDs := make(map[string][]string, len(idMap))
+	for _, id := range slicesext.MapKeysToSortedSlice(idMap) {
+		ids := []string{id}
+		if replacements, ok := deprecations[id]; ok {
+			ids = replacements
+		}
+		for _, newID := range ids {
+			newIDs[newID] = slicesext.ToUniqueSorted(append(newIDs[newID], idMap[id]...))
 		}
 	}
 	return newIDs
